@@ -723,7 +723,7 @@ pub fn run_check(prop: Arc<dyn Property>, tier: Tier) -> i32 {
                     let case = match prop.enum_case(&gctx, i) {
                         Some(c) => c,
                         None => {
-                            *stats.excluded.entry("enumeration:known-finding-class".into()).or_default() += 1;
+                            *stats.excluded.entry("enumeration:excluded(known-finding item or outside the domain)".into()).or_default() += 1;
                             continue;
                         }
                     };
